@@ -1,4 +1,5 @@
 import Mp.ProofsStr
+import Mp.ProofsRepl
 /-! C18 — string functions mean what their names say: property theorems (proved in Mp.ProofsStr). -/
 #print axioms Mp.isInfix_iff
 #print axioms Mp.contains_true_iff
@@ -13,3 +14,8 @@ import Mp.ProofsStr
 #print axioms Mp.trimRight_take
 #print axioms Mp.stringPart_negative
 #print axioms Mp.stringPart_fractional
+#print axioms Mp.replaceAll_no_occurrence
+#print axioms Mp.replaceAll_first_occurrence
+#print axioms Mp.replaceAll_pieces
+#print axioms Mp.replaceAll_func
+#print axioms Mp.replaceAll_empty_search
